@@ -103,6 +103,15 @@ def hash_fuse_search(tier, seed, hbin, rundir, _alarm):
         if p.returncode != 0:
             raise RuntimeError("hfuse gen failed: " + p.stdout[-300:])
         runs.append(hist)
+    # bigger queues and batches: the bulk strategies of extend / collect / append under panics
+    hist = os.path.join(rundir, "hfuse_bulk.hist")
+    p = subprocess.run([hbin, "gen", "random", "--seed", str(seed + 79), "--count", str(count * 3), "--len", "60",
+                        "--kind", "both", "--profile", "hfuse", "--keys", "40", "--prios", "small",
+                        "--hashmode", "0", "--boost", "extend:8,fromiter:3,append:3", "--out", hist],
+                       stdout=subprocess.PIPE, stderr=subprocess.STDOUT, text=True)
+    if p.returncode != 0:
+        raise RuntimeError("hfuse gen failed: " + p.stdout[-300:])
+    runs.append(hist)
     for hist in runs:
         tr = hist + ".impl"
         p = subprocess.run([hbin, "exec", hist, tr, "--timeout", "300"], stdout=subprocess.PIPE, stderr=subprocess.STDOUT, text=True)
